@@ -16,7 +16,7 @@ RULE = ('one real stack (1-2 CAs) and 2-3 reference peers; a generated history o
         'per (SA,DA) pair; J1939-22: 8 RTS/CTS + 4 BAM plus one call beyond each) while the peers open inbound sessions with colliding session '
         'numbers. non-trivial = at least one history step ended in a failure outcome that actually fired; distinct = distinct scenario JSON')
 FAULT_COUNTERS = {'drop (frame lost)': 'fault_drop', 'peer aborts': 'peer_aborts', 'failed outcomes fired (lost frame / abort / silent peer / no acknowledge)': 'failed_outcomes_fired', 'second call on a busy pair': 'refused_busy_pair', 'inbound sessions overlapping outbound ones': 'inbound_overlaps'}
-REQUIRED_PROBES = ['steps', 'failed_outcomes_fired', 'peer_aborts', 'refused_busy_pair', 'final_batches_ok', 'inbound_overlaps']
+REQUIRED_PROBES = ['steps', 'failed_outcomes_fired', 'peer_aborts', 'refused_busy_pair', 'final_batches_ok', 'inbound_overlaps', 'stalled_inbound']
 PEERS = {'P1': 0x41, 'P2': 0x42, 'P3': 0x43}
 
 
@@ -51,6 +51,8 @@ def generate(rng, tier, i):
         steps.append(s)
     scn['steps'] = steps
     scn['final_inbound'] = rng.random() < 0.7
+    # J1939-22: the final batch is kept open by the receivers while inbound sessions with the same numbers time out
+    scn['final_stall'] = fd and rng.random() < 0.4
     return scn
 
 
@@ -65,7 +67,7 @@ def execute(scn, keep_log=False, hook=None):
         peers[name] = RefPeer(sim, bus, name, PEERS[name], fd=fd, seed=scn['seed'] + k, policy={'reply_ms': (0, 3), 'window': None})
     viol = []
     stats = {'steps': 0, 'failed_outcomes_fired': 0, 'peer_aborts': 0, 'refused_busy_pair': 0, 'final_batches_ok': 0, 'inbound_overlaps': 0,
-             'clean_delivered': 0}
+             'clean_delivered': 0, 'stalled_inbound': 0}
     t0 = sim.now
     sim.run_for(0.02)
     fillc = [scn['seed'] & 0xFFF]
@@ -192,6 +194,12 @@ def execute(scn, keep_log=False, hook=None):
                 for r in range(3 if fd else 1):
                     inbound({'peer': name, 'mode': 'cmdt', 'len': (60 if fd else 7) * 3 + 1 + r, 'ca': k % len(local)})
         n0 = len(bus.frames)
+        stall = fd and scn.get('final_stall')
+        if stall:
+            # the receivers keep the stack's outbound sessions open with holds for about 2 s ...
+            for p in peers.values():
+                p.p['holds'] = (5, 5)
+                p.p['hold_gap_ms'] = (400, 400)
         if fd:
             plan = [('cmdt', scn['peers'][k % len(scn['peers'])], k % len(local)) for k in range(8)] + [('bam', 'bam', k % len(local)) for k in range(4)]
             for kind, name, ca in plan:
@@ -203,8 +211,17 @@ def execute(scn, keep_log=False, hook=None):
                                  'msg': 'final batch: %s session %d of %d refused (%r) after the history' % (kind, len(expect) + 1, len(plan), ok)})
                     break
                 expect.append((name, bytes(d)))
+            if not viol and stall:
+                # ... while inbound sessions (session numbers 0..3, the numbers of the stack's own sessions) opened by a node that then
+                # falls silent time out: that must not free any outbound session number
+                for sn in range(4):
+                    bus.send('X', rc.make_id(7, 0, rc.PF_FD_TP_CM, local[sn % len(local)], 0x77), True, bytes(rc.fd_rts(sn, 130, 3, 255, 0xD600)), True)
+                sim.run_for(1.6)
+                stats['stalled_inbound'] += 1
+                for p in peers.values():
+                    p.p['holds'] = (0, 0)
             if not viol:
-                for kind in ('cmdt', 'bam'):
+                for kind in (('cmdt',) if stall else ('cmdt', 'bam')):
                     nf = len(bus.frames)
                     pf, ps = (0xFE, 0xCA) if kind == 'bam' else (0xD0, PEERS[scn['peers'][0]])
                     ok = st.cas[0].send_pgn(0, pf, ps, 6, list(fresh(300)))
@@ -278,10 +295,11 @@ def shrink(scn):
             c = copy.deepcopy(scn)
             c['steps'][i]['j'] = s['j'] - 1
             yield c
-    if scn.get('final_inbound'):
-        c = copy.deepcopy(scn)
-        c['final_inbound'] = False
-        yield c
+    for flag in ('final_inbound', 'final_stall'):
+        if scn.get(flag):
+            c = copy.deepcopy(scn)
+            c[flag] = False
+            yield c
     k = scn.get('kernel') or {}
     if k.get('lmax_ns') != 5000 or k.get('read_cost_ns') != 1000:
         c = copy.deepcopy(scn)
